@@ -221,8 +221,13 @@ class Anchors:
         txf, mvw = self.roles.get('tx-free-role'), self.roles.get('map-view')
         dw = [f for f in self._methods_of('InnerBucket') if txf in cg.get(f, ()) and mvw in cg.get(f, ())]
         self._set('delete-walk', self._unique(dw, 'delete_bucket'), 'InnerBucket method that frees pages it finds through the map view')
+        # the tree search: returns the exact-match flag together with the descent stack -- `-> (bool, Vec<SearchPath>)`, or `-> bool` with the stack filled through a
+        # `&mut Vec<SearchPath>` parameter
         sr = [f for f in F.fns if f.kind != 'Closure' and f.locals[0]['ty'].startswith('(bool, std::vec::Vec<') and 'SearchPath' in f.locals[0]['ty']]
-        self._set('search-role', sr[0] if len(sr) == 1 else None, 'function returning (exact-match flag, descent stack)')
+        if not sr:
+            sr = [f for f in F.fns if f.kind != 'Closure' and f.locals[0]['ty'] == 'bool' and
+                  any(f.locals[i]['ty'].startswith('&mut std::vec::Vec<') and 'SearchPath' in f.locals[i]['ty'] for i in range(1, f.argc + 1))]
+        self._set('search-role', sr[0] if len(sr) == 1 else None, 'function returning the exact-match flag and producing the descent stack')
         # the resize role: the DBInner method that grows the file (FileExt::allocate / File::set_len, itself or through private free helpers such as `set_file_size`)
         # and is reached from the commit; when several qualify (`ensure_capacity` calling `resize`), the innermost one that holds the primitive
         def grows(f, direct_only=False):
